@@ -1,5 +1,5 @@
 #!/usr/bin/env python3
-"""Merge the two per-build-profile evidence parts of C16 into one evidence file."""
+"""Merge the two per-build-profile evidence parts of a check into one evidence file."""
 import json, sys
 a = json.load(open(sys.argv[1])); b = json.load(open(sys.argv[2]))
 out = dict(a)
